@@ -10,7 +10,11 @@ META = {
              'simulation to the sequential collection through the linearization points (add at the bitmap insert, update at '
              'the conditional put, remove at the delete, flush at the exclusive gate; hence no lost update, exactly one remove '
              'returns the document, return values = those of the linearization, the version-conditioned put never fails under '
-             'the lock). Two Coq-proved checkers judge the real implementation: admits (is this trace of start / backend step / '
+             'the lock); get is in the model (no gate; linearized at its read). The read cache of storage.rs is a second '
+             'small-step model whose reader and writer programs are regenerated from the source (order of lookup / load '
+             'generation / fetch / re-check / insert, and of backend write / bump / evict in every write path): any number of '
+             'readers and writers, any schedule, a read never returns a value older than the newest write acknowledged before '
+             'it started (with a refuted witness for the order fetch-then-load). Two Coq-proved checkers judge the real implementation: admits (is this trace of start / backend step / '
              'resume / return events a run of the model with the same return values and final documents?) over all '
              'interleavings of the backend steps of every ordered pair of operations and sampled 3- and 4-operation sets on a '
              'single-threaded executor through a parking store, and lin_ok (is this order a sequential execution with exactly '
@@ -18,8 +22,11 @@ META = {
              'and randomized multi-threaded runs; a harness-side sequential-order search and an index/document comparison are '
              'the direct oracles.'),
     'design_ref': 'DESIGN.md section 4 / C05',
-    'note': ('Partial: the cache_write_seq read-cache protocol (C05.5) is exercised by the cache-enabled runs but not modelled; '
-             'extension writers and overlapping reads are not in the model; what a flush persists is recorded by the model '
+    'note': ('Partial: extension writers and index-only reads (query_ids) are judged by the harness oracle only; the cache model is '
+             'per path (capacity evictions and generation-stripe collisions only add misses); a get served by a still-valid '
+             'entry while a write of the same document is applied but not yet delivered is legal (the write is unacknowledged) '
+             'but not strictly linearizable: such runs are judged by the acknowledged-write rule and lin_ok over the mutations, '
+             'not by admits (counted in the evidence); what a flush persists is recorded by the model '
              '(snapshot at its linearization point, mutations excluded while it holds the gate) but its content is not checked '
              'against ids.cbor (C01). A flush that finds nothing dirty returns without touching ids.cbor: the replay takes its '
              'persist step unobserved. The sequential specification lets add return any id never handed out '
@@ -39,10 +46,14 @@ def run(ck):
     ck.rule = ('initial collection of 3 flushed documents (B-tree + BM25 indexes); pool of 10 operations (2 adds, 3 updates of 2 '
                'documents incl. same-document pairs, 2 removes, update/remove of a missing id, flush); every ordered pair with every '
                'release order of the backend calls parked before AND after each call (cap per pair, then random), the same-document '
-               'pairs again with the read cache on, sampled triples and quadruples, randomized 4-worker runs of 7 (quick) / 10 '
+               'pairs again with the read cache on; get / query_ids of present, removed and missing documents against every write '
+               'with the cache ON and the backend GET parked before it is served and again before it is delivered, plus a reader '
+               'started after the first call returned; read/write/write/read sets on one document; sampled triples and quadruples '
+               '(reads included, second wave after the first return), randomized 4-worker runs of 7 (quick) / 10 '
                '(thorough) operations in two waves; non-trivial = a distinct (operations, schedule) run with at least two '
                'operations on the same document or an add/flush pair')
-    ck.coq(['Conc/Props.v'], ['Conc'], model_targets=['Conc/Run.vo'])
+    ck.translate(only=['gen_cache'])
+    ck.coq(['Conc/Props.v'], ['Conc', 'gen'], model_targets=['Conc/Run.vo'])
     ck.assume('interleavings at backend-call granularity; memory orderings and scheduler fairness are not modelled',
               'add may return any never-used id in the sequential specification',
               'the replay orders same-instant steps like the explorer does (operations started in index order; tokio gate FIFO)')
